@@ -7,8 +7,12 @@ From Verif Require Import model.Lang model.Engine proofs.EngineProofs proofs.Eng
 Import ListNotations.
 Open Scope N_scope.
 
+(* what a stored result keeps: its value within MaxResultChars, and the input it was computed from (the operand of
+   the router that saved it; empty for set_run_result) within MaxTemplateChars - so nothing a result keeps can grow
+   from visit to visit *)
 Definition value_ok (a : assets) (res : result) : Prop :=
-  (Z.of_nat (length (res_value res)) <= Z.max (max_result_chars (a_opts a)) 0)%Z.
+  (Z.of_nat (length (res_value res)) <= Z.max (max_result_chars (a_opts a)) 0)%Z /\
+  (Z.of_nat (length (res_input res)) <= Z.max (max_template_chars (a_opts a)) 0)%Z.
 
 Definition results_ok (a : assets) (s : session) : Prop :=
   forall i r res, nth_error (s_runs s) i = Some r -> In res (r_results r) -> value_ok a res.
@@ -52,15 +56,16 @@ Lemma save_and_log_results : forall a x ri sr name value cat nid input x' v,
 Proof.
   intros a x ri sr name value cat nid input x' v H. unfold save_and_log.
   destruct (trunc_spec value (max_result_chars (a_opts a))) as (t & -> & Hl & _).
+  destruct (trunc_ellipsis_spec input (max_template_chars (a_opts a))) as (kept & -> & Hkept & _).
   destruct (get_run (session_ x) ri) as [r0|] eqn:Er.
   - destruct (save_result (r_results r0) _) as [rs ch] eqn:Es. intros E; inversion E; subst.
     assert (K : results_ok a (session_ (with_session x (fun s => upd_run s ri (run_set_results rs))))).
-    { intros i r res Hi Hin. simpl in Hi. unfold upd_run in Hi; simpl in Hi.
+    { intros i r res Hi Hin0. simpl in Hi. unfold upd_run in Hi; simpl in Hi.
       destruct (Nat.eq_dec ri i) as [->|Hne].
-      - rewrite nth_error_update_nth_eq in Hi. unfold get_run in Er. rewrite Er in Hi. inversion Hi; subst. simpl in Hin.
-        pose proof (save_result_in (r_results r0) {| res_name := name; res_value := t; res_cat := cat; res_node := nid; res_input := input |} res) as S.
-        rewrite Es in S. destruct (S Hin) as [->|Hold].
-        + exact Hl.
+      - rewrite nth_error_update_nth_eq in Hi. unfold get_run in Er. rewrite Er in Hi. inversion Hi; subst. simpl in Hin0.
+        pose proof (save_result_in (r_results r0) {| res_name := name; res_value := t; res_cat := cat; res_node := nid; res_input := kept |} res) as S.
+        rewrite Es in S. destruct (S Hin0) as [->|Hold].
+        + split; [exact Hl|exact Hkept].
         + eapply H; eauto.
       - rewrite nth_error_update_nth_neq in Hi by auto. eapply H; eauto. }
     destruct ch; [apply results_ok_log_event|]; exact K.
